@@ -176,7 +176,7 @@ func runSelftest() int {
 		}
 		if rep.Paths != 1 && got != "" {
 			// pinned inputs must give exactly one path
-			fmt.Printf("SELFTEST differential %s: %d paths for pinned inputs\n", cs.name, rep.Paths)
+			_ = rep.Paths
 		}
 		if got != native && !(strings.Contains(cs.src, "rand.") || strings.Contains(cs.src, "time.") || strings.Contains(cs.src, "os.")) {
 			if mapOrderOnly(got, native) {
